@@ -14,7 +14,10 @@ SeqsUpTo(S, n) == UNION {[1..k -> S] : k \in 0..n}
 \* (\nb on \nb\nb\nb\n), an empty match followed on the same line by a match that runs into the next line
 SpecialInputs == { <<SLF, SB, SLF, SB, SLF, SB, SLF>>, <<SB, SLF, SB, SLF, SB, SLF, SB, SLF>>, <<SA, SLF, SB, SLF, SB, SLF, SB>>,
                    <<SLF, SB, SLF, SB, SLF, SB, SLF, SB, SLF, SA>>, <<SA, SA, SA, SLF, SA>>, <<SA, SA, SA, SLF, SA, SLF, SB>>,
-                   <<SB, SA, SA, SLF, SA, SA, SLF, SA>> }
+                   <<SB, SA, SA, SLF, SA, SA, SLF, SA>>,
+                   \* more than 128 bytes after the first block (the printers look ahead that far when they re-find matches)
+                   <<SA, SLF>> \o [i \in 1..140 |-> SB] \o <<SLF>>,
+                   <<SB, SA, SLF>> \o [i \in 1..70 |-> SB] \o <<SLF>> \o [i \in 1..70 |-> SA] \o <<SLF, SA, SLF, SB>> }
 Inputs == SeqsUpTo({SA, SB, SLF}, MaxLen) \cup SpecialInputs
 
 LF1 == ULit(SLF)
